@@ -200,8 +200,62 @@ def shrink(impl, model, lines, sig):
             return False
         return st == 'ok' and any(p[0] == sig for p in probs)
     if len(lines) > 60:
-        return lines
-    return vlib.shrink_list(lines, fails, max_steps=60)
+        # a long (fixed) history: first try the usual skeleton around each single module-creating line
+        small = None
+        pre = [l for l in lines if l.split()[1] in ('init', 'file', 'c2m_init')]
+        for l in lines:
+            w = l.split()
+            if w[1] not in ('c2m', 'c2mo', 'scan', 'api', 'apim'):
+                continue
+            c = w[0]
+            f = G.module_funcs(l)
+            for tail in (['load', 'link interp'] + (['interp %s 7' % f[0]] if f else []), ['load', 'gen_init', 'opt 2', 'link gen'] +
+                         (['call %s 7' % f[0]] if f else []) + ['gen_finish']):
+                mine = [x for x in pre if x.split()[0] == c]
+                cand = mine + [l] + ['%s %s' % (c, t) for t in tail + (['c2m_finish'] if c + ' c2m_init' in mine else []) + ['finish']]
+                if fails(cand):
+                    small = cand
+                    break
+            if small:
+                break
+        if small is None:
+            return lines
+        lines = small
+    lines = vlib.shrink_list(lines, fails, max_steps=150)
+    return shrink_payloads(lines, fails)
+
+
+def shrink_payloads(lines, fails, budget=160):
+    """shrinks INSIDE the module-creating lines of an already short failing script: declarations of an `apim` list,
+    text lines of a MIR module or of a C unit are dropped while the script stays a legal error-free history (a removal
+    that makes the scanner / compiler / API report an error turns the run `not-error-free`, which `fails` rejects)
+    and still shows the same signature"""
+    for i, l in enumerate(lines):
+        w = l.split(' ')
+        if len(w) < 3 or w[1] not in ('apim', 'scan', 'c2m', 'c2mo'):
+            continue
+        if w[1] == 'apim':
+            parts, join = w[3].split(','), (lambda ps, w=w: ' '.join(w[:3] + [','.join(ps)]))
+        else:
+            try:
+                txt = G._unhex(w[-1]).decode()
+            except Exception:
+                continue
+            parts, join = txt.split('\n'), (lambda ps, w=w: ' '.join(w[:-1] + [G.hexs('\n'.join(ps))]))
+        if len(parts) < 2:
+            continue
+        used = [0]
+
+        def f2(ps, i=i, join=join):
+            used[0] += 1
+            return used[0] <= budget and fails(lines[:i] + [join(ps)] + lines[i + 1:])
+        small = vlib.shrink_list(parts, f2, max_steps=budget)
+        if len(small) < len(parts):
+            lines = lines[:i] + [join(small)] + lines[i + 1:]
+        budget -= min(used[0], budget)
+        if budget <= 0:
+            break
+    return lines
 
 
 def _hull(writes):
@@ -482,7 +536,9 @@ def run(chk):
                     k = e[0].split()[0]
                     evkinds[k] = evkinds.get(k, 0) + 1
             for p in probs:
-                seen_sigs.setdefault(p[0], (lines, p))
+                # keep the shortest history showing the signature (the fixed histories are long)
+                if p[0] not in seen_sigs or len(lines) < len(seen_sigs[p[0]][0]):
+                    seen_sigs[p[0]] = (lines, p)
     nef = chk.cov.get('status', {}).get('not-error-free', 0)
     if nef:
         chk.notes.append('%d of %d generated histories raised a MIR error / failed to compile and were discarded' % (nef, len(scen)))
